@@ -7,9 +7,7 @@ PID = "C01"
 GEN = ["primality"]
 LEAN = ["Ymq.Props.C01"]
 AUDIT = "Ymq.Audit.C01"
-THEOREMS = ["Ymq.C01.factor_sound"]
-_PLANNED = ["Ymq.C01.combineDiv_prod", "Ymq.C01.retain_residue_one",
-            "Ymq.C01.factorImpl_prod", "Ymq.C01.factor_exact"]
+THEOREMS = ['Ymq.C01.factor_sound', 'Ymq.C01.factor_no_one', 'Ymq.C01.retain_residue_one', 'Ymq.C01.combineDiv_prod', 'Ymq.C01.combineDiv_no_panic', 'Ymq.C01.factorImpl_prod', 'Ymq.C01.factor_exact']
 PROFILES = ["release", "chk"]
 TIMEOUT = 120.0
 RULE = ("n = product of primes drawn from size classes (tiny..52 bit quick, ..90 bit thorough) in the shapes "
@@ -20,7 +18,7 @@ MODELLED = ["lib.rs factor / factor_impl / check_factors line by line (Ymq/Model
             "parameters (arbitrary in the theorems, the recorded trace of the real run in the replay)"]
 UNMODELLED = ["bnum Uint operators and num_integer::gcd are taken as Nat arithmetic (wrap modulo 2^1024 modelled in check_factors only)",
               "contracts of the sub-algorithms (every split multiplies to its argument) are hypotheses here, established under C11/C16"]
-HYPOTHESES = ["OracleOK: every split returned by a sub-algorithm for m multiplies to m with parts > 1 (and sieve divisors divide m)"]
+HYPOTHESES = ['OracleOK (Lemmas/FactorOracle.lean): every split returned for m multiplies to m with parts < m; sieve divisors divide m (established for the real sub-algorithms under C11/C16)']
 
 
 def prefs_tokens(rng):
@@ -40,7 +38,7 @@ def prefs_tokens(rng):
 
 def cases(tier, rng, extended=False):
     quick = tier == "quick"
-    count = 500 if quick else 4000
+    count = 300 if quick else 4000
     if extended:
         count *= 5
     maxbits = 100 if quick else 130
@@ -52,7 +50,7 @@ def cases(tier, rng, extended=False):
         if fc.nred_bits(inp.n) < 40:
             algs = [a for a in algs if a not in ("qs", "mpqs", "siqs", "qs64")]
         # P-1 on big inputs is slow: keep it below 70 bits
-        if inp.n.bit_length() > 70:
+        if inp.n.bit_length() > 60:
             algs = [a for a in algs if a != "pm1"]
         for alg in rng.sample(algs, min(len(algs), 2 if quick else 3)) + (["auto"] if "auto" not in algs[:0] else []):
             toks = prefs_tokens(rng)
